@@ -161,6 +161,16 @@ def run_check(tier, seed):
                 ck.cov[k_] = ck.cov.get(k_, 0) + sub.cov.get(k_, 0)
         except EngineError as e:
             ck.inconclusive.append('as-of clock of the daemon: %s' % e)
+    # ---- (vi) the FILE the daemon leaves is the documented segment, whatever was at the path before: 72 bytes in all, the Segment Size
+    # field says 72 (a daemon start over every class of unusable content: empty, cut, garbage, over-long, alive-looking headers)
+    if not ck.violations:
+        from .segment_files import confirm_recreate
+        sub = Check('C17', tier, seed)
+        confirm_recreate(sub)
+        for key, desc, path in sub.violations:
+            ck.violations.append(('segment-file:' + key, 'the file the daemon leaves at the segment path is not the documented 72-byte segment: ' + desc, path))
+        ck.cov['native_recreate'] = sub.cov.get('native_recreate')
+        ck.cov['evaluations'] = ck.cov.get('evaluations', 0) + (sub.cov.get('native_recreate') or {}).get('files', 0)
     ck.cov['functions_encoded'] = ['run_clock_error_bound_poller (clock the as-of instant is read from)', 'clockbound_now', 'ClockBoundClient::now', 'From<ShmError> for clockbound_err', 'From<ShmError> for ClockBoundError', 'From<ClockStatus> for clockbound_clock_status',
                                    'ShmWriter::new / ShmReader::new pointer arithmetic', 'SHM_MAGIC', 'ShmWriter::write over a typed record (every field stored)']
     ck.cov['mir_dump_s'] = round(mir_wall, 1)
